@@ -210,6 +210,28 @@ func init() {
 		out[0] = ex.st.Bin(OpBAnd, wall, ex.st.Const(64, ^uint64(0x3fffffff)))
 		return out
 	}
+	// time.Time.Round(time.Second): same reasoning; halfway values round up.
+	in["(time.Time).Round"] = func(ex *Exec, fn *ssa.Function, args []Value) Value {
+		t := args[0].(Struct)
+		d := args[1].(*Term)
+		wall := t[0].(*Term)
+		if !d.IsConst() || d.Val != 1000000000 {
+			panic(engineErr("time.Round with a duration other than time.Second is not modelled"))
+		}
+		mono := ex.st.Extract(wall, 63, 1)
+		if !(mono.IsConst() && mono.Val == 0) {
+			if ex.isConcrete || ex.check(ex.st.Eq(mono, ex.st.Const(1, 1))) != Unsat {
+				panic(engineErr("time.Round on a time with a monotonic reading is not modelled"))
+			}
+		}
+		nsec := ex.st.Bin(OpBAnd, wall, ex.st.Const(64, 0x3fffffff))
+		up := ex.st.Not(ex.st.Ult(nsec, ex.st.Const(64, 500000000)))
+		out := make(Struct, len(t))
+		copy(out, t)
+		out[0] = ex.st.Bin(OpBAnd, wall, ex.st.Const(64, ^uint64(0x3fffffff)))
+		out[1] = ex.st.Ite(up, ex.st.Bin(OpAdd, t[1].(*Term), ex.st.Const(64, 1)), t[1].(*Term))
+		return out
+	}
 	// context: cancellation is not modelled (sequentialised execution); derived contexts are the parent
 	in["context.WithCancel"] = func(ex *Exec, fn *ssa.Function, args []Value) Value {
 		return Tuple{args[0], NativeFunc(func(ex *Exec, a []Value) Value { return nil })}
@@ -222,8 +244,22 @@ func init() {
 	in["runtime.SetFinalizer"] = nop
 
 	// --- os/user: name service is outside the model; every lookup fails ---
+	// (instances with parameter namesvc=1 get a name service in which every id lookup
+	// succeeds: users are all called "usr", groups "grp" - enough to tell the two id lists apart)
 	for _, n := range []string{"os/user.Lookup", "os/user.LookupId", "os/user.LookupGroup", "os/user.LookupGroupId", "os/user.Current"} {
+		name := n
 		in[n] = func(ex *Exec, fn *ssa.Function, args []Value) Value {
+			if ex.eng.Params["namesvc"] == 1 && (name == "os/user.LookupId" || name == "os/user.LookupGroupId") {
+				c := new(Value)
+				z := ex.zero(deref(fn.Signature.Results().At(0).Type())).(Struct)
+				if name == "os/user.LookupId" {
+					z[2] = Str{S: "usr"} // User.Username
+				} else {
+					z[1] = Str{S: "grp"} // Group.Name
+				}
+				*c = z
+				return Tuple{Ptr{c}, Iface{}}
+			}
 			return Tuple{Ptr{}, ex.mkError("user: lookup not available in the model")}
 		}
 	}
